@@ -68,16 +68,19 @@ Section Ops.
         | _, _ => (l1, Done)
         end.
 
-    (* sparse children: modify the child stored under k with f, or create it with mk *)
+    (* sparse children: modify the child stored under k with f, or create it with mk; a new
+       child is inserted only after its own fill succeeded *)
     Definition sp_fill {K : Type} (cmp : K -> K -> comparison) (f : A -> A * outcome)
                (mk : unit -> A * outcome) (k : K) :=
       fix go (l : list (K * A)) {struct l} : list (K * A) * outcome :=
         match l with
-        | [] => let '(c, o) := mk tt in ([(k, c)], o)
+        | [] => let '(c, o) := mk tt in
+                match o with Done => ([(k, c)], Done) | Raise => ([], Raise) end
         | (k', v) :: l' =>
             match cmp k k' with
             | Eq => let '(v', o) := f v in ((k', v') :: l', o)
-            | Lt => let '(c, o) := mk tt in ((k, c) :: l, o)
+            | Lt => let '(c, o) := mk tt in
+                    match o with Done => ((k, c) :: l, Done) | Raise => (l, Raise) end
             | Gt => let '(l'', o) := go l' in ((k', v) :: l'', o)
             end
         end.
@@ -294,7 +297,8 @@ Section Ops.
                             end
                         | Some t =>
                             let '(sp', o2) :=
-                              if z then (let '(c, o) := fillz true t d w' in ([(key, c)], o))
+                              if z then (let '(c, o) := fillz true t d w' in
+                                         match o with Done => ([(key, c)], Done) | Raise => ([], Raise) end)
                               else sp_fill key_cmp (fun c => fillz false c d w')
                                            (fun _ => fillz true t d w') key sp in
                             match o2 with
